@@ -326,7 +326,7 @@ func init() {
 			return s
 		},
 		Run:  c11Run,
-		Rule: "data graph of depth 3 from a struct/map/slice/pointer type family (repeated field names at several depths, prefix names Kids/KidsX, value- and pointer-receiver methods returning leaves/structs/slices, every leaf string spelling its own Go path); from 8 roots (struct value, pointer, slices and a leaf under names that are also field names, a map, a []interface{} of different struct types holding the same field names at different positions) every walk of the type graph of <=L steps (field, index, map key, method call) ending at a string leaf, with indexes/keys spelled as literals, variables, i+0 expressions, variables named like fields expressions that mention the root variable (len(ROOT) / 2), indexes that are themselves index-then-member paths through the same root, and unsigned / 64-bit index variables; each used in an output tag, through let, and (for walks through a slice) as loop iterable with the tail applied to the loop variable. Expected value = Go navigation by reflection. Every walk prefix is also extended by one uncompletable step (missing key, nil pointer then member/method, index 9 / -1 via variable, unknown field/method, unexported field), alone and followed by a further .Field / .Field[0] / .Method() continuation. Oracle: completable => exactly the leaf, or an error; never another value, never empty without error. Uncompletable => error or empty output, never a leaf, never a panic. (poly) one field / method / indexed / helper-result path node evaluated with receivers of 3 struct types (and a pointer) whose same-named fields and methods sit at different positions - in a loop over a mixed slice in 6 orders and as consecutive executions of one parsed template: always the named member of the current receiver; paths whose tail mentions the indexed variable again (as an index, as a method argument) see the collection, not the element; a path through a name rebound to nil in an inner scope (let, parameter, loop variable, partial data) fails or is empty, it never continues from the outer variable. Non-trivial: walks with >=2 steps.",
+		Rule: "data graph of depth 3 from a struct/map/slice/pointer type family (repeated field names at several depths, prefix names Kids/KidsX, value- and pointer-receiver methods returning leaves/structs/slices, every leaf string spelling its own Go path); from 8 roots (struct value, pointer, slices and a leaf under names that are also field names, a map, a []interface{} of different struct types holding the same field names at different positions) every walk of the type graph of <=L steps (field, index, map key, method call) ending at a string leaf, with indexes/keys spelled as literals, variables, i+0 expressions, variables named like fields expressions that mention the root variable (len(ROOT) / 2), indexes that are themselves index-then-member paths through the same root, and unsigned / 64-bit index variables; each used in an output tag, through let, and (for walks through a slice) as loop iterable with the tail applied to the loop variable. Expected value = Go navigation by reflection. Every walk prefix is also extended by one uncompletable step (missing key, nil pointer then member/method, index 9 / -1 via variable, unknown field/method, unexported field), alone and followed by a further .Field / .Field[0] / .Method() continuation. Oracle: completable => exactly the leaf, or an error; never another value, never empty without error. Uncompletable => error or empty output, never a leaf, never a panic. (poly) one field / method / indexed / helper-result path node evaluated with receivers of 3 struct types (and a pointer) whose same-named fields and methods sit at different positions - in a loop over a mixed slice in 6 orders and as consecutive executions of one parsed template: always the named member of the current receiver; map lookups with a key of another kind than the map's key type (int for string, float for int, out-of-range int for uint8, bool for string, ...) fail or are empty, they never find the entry of a converted key; paths whose tail mentions the indexed variable again (as an index, as a method argument) see the collection, not the element; a path through a name rebound to nil in an inner scope (let, parameter, loop variable, partial data) fails or is empty, it never continues from the outer variable. Non-trivial: walks with >=2 steps.",
 		Bound: func(th bool) string {
 			if th {
 				return "walk length <=7"
@@ -373,6 +373,30 @@ func c11Run(t *engine.T, shard string) {
 					return "", engine.Failf("wrong-value", "Go navigation yields %q, template rendered %q", c.want, out)
 				}
 				return "value", nil
+			})
+		}
+		// a map key of another kind than the map's keys cannot be looked up: never the entry of a converted key
+		for _, c := range []string{`<%= msv[97] %>`, `<%= msv[97.0] %>`, `<%= miv[1.9] %>`, `<%= miv[1.0] %>`, `<%= miv["1"] %>`, `<%= m8v[257] %>`, `<%= m8v[-255] %>`, `<%= mfv[1] %>`, `<%= msv[true] %>`, `<%= mbv[1] %>`,
+			`<% let k = 97 %><%= msv[k] %>`, `<%= msv[i97] %>`, `<%= miv[f19] %>`, `<%= msv[97].Name %>`, `<%= for (k, v) in [97] { %><%= msv[v] %><% } %>`} {
+			c := c
+			t.Case("foreign-key "+q(c), true, func() (string, *engine.Fail) {
+				plush.CacheEnabled = false
+				ctx := plush.NewContext()
+				ctx.Set("msv", map[string]string{"a": "ENTRY-a", "1": "ENTRY-1"})
+				ctx.Set("miv", map[int]string{1: "ENTRY-1", 0: "ENTRY-0"})
+				ctx.Set("m8v", map[uint8]string{1: "ENTRY-1"})
+				ctx.Set("mfv", map[float64]string{1: "ENTRY-1"})
+				ctx.Set("mbv", map[bool]string{true: "ENTRY-true"})
+				ctx.Set("i97", int32(97))
+				ctx.Set("f19", 1.9)
+				out, err := plush.Render(c, ctx)
+				if err != nil {
+					return "fails", nil
+				}
+				if strings.Contains(out, "ENTRY") {
+					return "", engine.Failf("wrong-value", "a key of another kind found the entry of a converted key: rendered %q", out)
+				}
+				return "empty", nil
 			})
 		}
 		// a name rebound to nil in an inner scope: a path through it cannot be completed - it must not continue from
